@@ -99,7 +99,10 @@ def step? (s : SS) : Op → Option SS
       else some { s with tmoQueued := true }
     else none
   | .hold q =>
-    if quiet s ∧ s.inhand = some q then some { s with inhand := none, held := s.held ++ [q] } else none
+    if quiet s ∧ s.inhand = some q then some { s with inhand := none, held := s.held ++ [q] }
+    -- a re-injected event is held again by a holder further down the chain
+    else if quiet s ∧ q ∈ s.propd then some { s with propd := s.propd.erase q, held := s.held ++ [q] }
+    else none
   | .drop q =>
     if quiet s ∧ s.inhand = some q then some { s with inhand := none, dropped := s.dropped ++ [q] }
     else if quiet s ∧ q ∈ s.propd then some { s with propd := s.propd.erase q, dropped := s.dropped ++ [q] }
